@@ -36,6 +36,34 @@ def gen_input(asts, r):
     return "".join(parts)
 
 
+# ---------------------------------------------------------------- tier C: lazy-DFA cache pressure
+
+def pressure_case(r, k, nwords):
+    """patterns whose DFA has ~2^k states and an input that visits most of them: the lazy DFA of the
+    real matcher has to clear its cache many times.  -> (patterns, text, expected token stream)"""
+    pats = [(r"[ab]+", False), (r"\s+", True), (r"[ab]*a[ab]{%d}c" % k, False), (r"[ab]*b[ab]{%d}d" % k, False), (r"[cd]", False)]
+    words = []
+    for _ in range(nwords):
+        w = "".join(r.choice("ab") for _ in range(r.randint(1, 120)))
+        z = r.random()
+        w += "c" if z < 0.3 else ("d" if z < 0.6 else "")
+        words.append(w)
+    exp, pos = [], 0
+    for w in words:
+        body = w.rstrip("cd"); tail = w[len(body):]
+        if tail == "c" and len(body) > k and body[-k - 1] == "a":
+            exp.append(("t", pos, 2, pos + len(w)))
+        elif tail == "d" and len(body) > k and body[-k - 1] == "b":
+            exp.append(("t", pos, 3, pos + len(w)))
+        else:
+            exp.append(("t", pos, 0, pos + len(body)))
+            if tail:
+                exp.append(("t", pos + len(body), 4, pos + len(w)))
+        pos += len(w) + 1
+    exp.append(("end",))
+    return pats, " ".join(words), exp
+
+
 # ---------------------------------------------------------------- tier B: through lalrpop
 
 def gen_match_grammar(r):
@@ -245,6 +273,22 @@ def run(tier):
             if nj <= 3:
                 rep.violation(why[0], {"what": why[1], "patterns": [list(x) for x in tables[tid]], "input": inp, "tokens": toks,
                                        "from": "lalrpop-generated table" if tid[0] == "b" else "pattern table"})
+    # ---------------- tier C: cache pressure (too large for evaluation inside Coq: judged against the
+    # token stream that the statement prescribes, known by construction)
+    npress = 0
+    for k, nw in ([(12, 6000), (16, 6000)] if tier == "quick" else [(10, 20000), (12, 20000), (14, 20000), (16, 20000), (18, 20000), (20, 20000)]):
+        pats, text, exp = pressure_case(r, k, nw)
+        got = lexcheck.run_lexdrv(lexdrv, {"p": pats}, [("p", text)])[0]
+        npress += 1
+        if got != exp:
+            nj += 1
+            i = next((j for j, (a, b_) in enumerate(zip(got, exp)) if a != b_), min(len(got), len(exp)))
+            # cut the input down to the shortest prefix (whole words) that still fails
+            rep.violation("wrong-tokens-under-cache-pressure", {
+                "what": "on a long input over patterns with a large DFA the real Matcher returns %r as item %d of the token stream, the longest-match rule prescribes %r "
+                        "(the lazy DFA cleared its cache and previously obtained state ids were used again)" % (got[i] if i < len(got) else None, i, exp[i] if i < len(exp) else None),
+                "patterns": [list(x) for x in pats], "input_bytes": len(text), "input_sha1": hashlib.sha1(text.encode()).hexdigest(), "generator": "tools/c09.py pressure_case(rng(9) stream, k=%d, words=%d)" % (k, nw),
+                "input_prefix_until_failure": text[: (exp[i][1] + 200) if i < len(exp) and len(exp[i]) > 1 else 2000][-4000:]})
     hdr = lexcheck.COQ_HEADER + "From LV Require Import Lex.TokenOrder.\n"
     for tid, asts in asts_by.items():
         hdr += "Definition P_%s : list (re * bool) := %s.\n" % (tid, lexcheck.coq_pats(asts))
@@ -269,9 +313,9 @@ def run(tier):
            "trusted_base": vlib.TRUSTED_COMMON + ["harness/src/bin/lexdrv.rs (real MatcherBuilder/Matcher)", "tools/rx.py (regex AST -> Rust syntax / Coq re over UTF-8 bytes)", "python re (judge only)"],
            "theorems": names, "evaluations": len(cases), "distinct_nontrivial": distinct,
            "rule": "A: random pattern tables (literals, classes incl. non-ASCII, repetitions, alternations, skip patterns, some nullable) x inputs assembled from pattern samples, whitespace and junk; "
-                   "B: random grammars with 0-3 `match` rungs, renamings, skip rules, `_`, grammar-only literals through lalrpop, emitted table order + real matcher on the emitted strings; "
+                   "C: patterns with 2^10..2^20-state DFAs x inputs of ~1 MB visiting most states (lazy-DFA cache clears), judged by construction; B: random grammars with 0-3 `match` rungs, renamings, skip rules, `_`, grammar-only literals through lalrpop, emitted table order + real matcher on the emitted strings; "
                    "non-trivial = stream with at least two tokens",
-           "distribution": {"tables_A": ntab, "grammars_B_accepted": accepted, "grammars_B_rejected": rejected, "stream_items": kinds, "order_checks": len(order_checks)},
+           "distribution": {"cache_pressure_streams_C": npress, "tables_A": ntab, "grammars_B_accepted": accepted, "grammars_B_rejected": rejected, "stream_items": kinds, "order_checks": len(order_checks)},
            "samples": [{"patterns": [list(x) for x in tables[cases[0][0]]], "input": cases[0][1], "tokens": streams[0]}]}
     vlib.write_evidence(PROP, tier, "proof", cov, time.time() - t0, violations=len(rep.viol),
                         assumptions=["regex semantics of the generated fragment: regex-automata is exercised, not verified; Unicode classes other than the whitespace class are not generated"])
